@@ -35,6 +35,10 @@ class CollectionValue(GenericValue):
 
     def _get_changes(self) -> Iterator[Change]:
 
+        if self._new_value is undefined:
+            # the only `in` check raised an exception (like a value which can not be copied)
+            return
+
         if self._ast_node is None:
             elements = [None] * len(self._old_value)
         else:
